@@ -49,6 +49,12 @@ class C17(Prop):
                     mv = sorted(keys)[-1]
                 n_cls += 1
                 yield {"op": "general", "args": {"spec": spec, "main_variant": mv, "cls": cls}}
+        # every architecture class (src, nosrc, noarch, binary) x every presence combination of packages / repository /
+        # source_packages / source_repository on the main variant: the fallback of packagedir / repository is for `src` only
+        for i in range(128 if tier == "quick" else 1280):
+            spec, mv, label = TF.gen_arch_paths(rng, tier, i)
+            n_cls += 1
+            yield {"op": "general", "args": {"spec": spec, "main_variant": mv, "cls": "arch-x-paths", "combo": label}}
         for i in range(max(0, budget - n_cls)):
             spec, mv = TF.gen(rng, tier, float_ts=(rng.random() < 0.35), dashed_by_id=0.3)
             keys = [v["key"] for v in spec["variants"]]
@@ -295,6 +301,8 @@ class C17(Prop):
         cls = case["args"].get("cls")
         if cls:
             dist.setdefault("classes", {})[cls] = dist.setdefault("classes", {}).get(cls, 0) + 1
+        if case["args"].get("combo") and "ok" in real_out.get("dump", {}):
+            dist.setdefault("arch_x_paths_written", {})[case["args"]["combo"]] = dist.setdefault("arch_x_paths_written", {}).get(case["args"]["combo"], 0) + 1
         feats = {"written": "ok" in real_out.get("dump", {}), "refused": "ok" not in real_out.get("dump", {}),
                  "main_variant_none": mv is None, "main_variant_key": mv is not None and mv in [v["key"] for v in s["variants"]],
                  "src": s["tree"]["arch"] == "src", "float_ts": isinstance(s["tree"]["build_timestamp"], dict),
